@@ -77,7 +77,7 @@ def gen_case(rng, klass):
         o["npred"] = rng.choice([1, 2, 3, numctx, numctx + 2, 2 * numctx + 1, 0, -1])
         o["keep"] = rng.choice([-1, 0, 0, 1, 2, numctx - 1, numctx, numctx + 3])
         if rng.random() < 0.25:
-            o["stop"] = [rnd_toks(rng, vocab, rng.randint(1, 3)) for _ in range(rng.randint(1, 2))]
+            o["stop"] = [rnd_stop(rng, vocab) for _ in range(rng.randint(1, 2))]
         nreq += 1
         return o
 
@@ -126,6 +126,31 @@ def gen_cases(ctx):
     for _ in range(n):
         cases.append(gen_case(rng, rng.choice(klasses)))
     return cases
+
+
+def derive_stop_cases(rng, cases, obs, n):
+    out = []
+    order = list(range(len(cases)))
+    rng.shuffle(order)
+    for ci in order:
+        if len(out) >= n:
+            break
+        c, o = cases[ci], obs[ci]
+        fr = o.get("fresh") or []
+        cand = [r for r, f in enumerate(fr) if isinstance(f, dict) and f.get("kind") == "" and len("".join(f.get("pieces") or [])) >= 2]
+        subs = [x for x in c["ops"] if x["t"] == "submit"]
+        if not cand or any("cont" in x for x in subs):
+            continue
+        r = rng.choice(cand)
+        txt = "".join(fr[r]["pieces"]).encode()
+        i = rng.randrange(0, len(txt) - 1)
+        j = rng.randint(i + 1, min(len(txt), i + 4))
+        d = json.loads(json.dumps(strip(c)))
+        dsubs = [x for x in d["ops"] if x["t"] == "submit"]
+        dsubs[r]["stop"] = [list(txt[i:j])] + ([rnd_stop(rng, c["cfg"]["vocab"])] if rng.random() < 0.3 else [])
+        d["klass"] = "derived-stop"
+        out.append(d)
+    return out
 
 
 # ------------------------------------------------------------------ monitor (the property, on the implementation's observations)
@@ -225,7 +250,19 @@ def zl(l):
 
 
 def strs(l):
-    return cq_list([vlib.cq_bytes(bytes(97 + t for t in s)) for s in l], "str")
+    return cq_list([vlib.cq_bytes(bytes(s)) for s in l], "str")
+
+
+def piece(t):
+    return [97 + t % 26] if t % 2 == 0 else [97 + t % 26, 65 + t % 26]
+
+
+def rnd_stop(rng, vocab):
+    """a stop string cut out of the text of 1-3 random tokens: may start/end inside a two-letter token"""
+    txt = [b for t in rnd_toks(rng, vocab, rng.randint(1, 3)) for b in piece(t)]
+    i = rng.randrange(len(txt))
+    j = rng.randint(i + 1, len(txt))
+    return txt[i:j]
 
 
 def render_cfg(cfg, numctx):
@@ -352,6 +389,16 @@ def run(ctx):
         ctx.obligation("harness c07 answered every case", False, err)
         ctx.proof_failures.append({"obligation": "correspondence: harness c07 did not answer every case", "detail": err})
         return
+    # second pass: stop sequences cut out of the text a request is known to generate (so that they are hit, also across
+    # token boundaries and inside two-letter tokens)
+    derived = derive_stop_cases(ctx.rng, cases, obs, 60 if ctx.quick() else 1200)
+    if derived:
+        obs2, err = ctx.run_jsonl(binp, [strip(c) for c in derived], timeout=900)
+        if obs2 is None or len(obs2) != len(derived):
+            ctx.obligation("harness c07 answered every case", False, err)
+            ctx.proof_failures.append({"obligation": "correspondence: harness c07 did not answer every derived case", "detail": err})
+            return
+        cases, obs = cases + derived, obs + obs2
     items, idx = [], []
     reported = set()
     for c, o in zip(cases, obs):
@@ -367,6 +414,12 @@ def run(ctx):
             ctx.count("hist-with-prefix-reuse")
         if shifted:
             ctx.count("hist-with-shift")
+        nstop = sum(1 for e in tr for rv in e["resp"].values() if rv.get("reason") == "stop")
+        if nstop:
+            ctx.count("requests-ended-by-stop-or-eos", nstop)
+        if any(e["t"] == "step" and any((not b["inuse"]) and a["inuse"] and len(e["cells"][i]) > len(b["inputs"])
+                                        for i, (a, b) in enumerate(zip(pe["state"]["slots"], e["state"]["slots"]))) for e, pe in zip(tr[1:], tr)):
+            ctx.count("hist-with-stop-trim-below-cache")
         viol = monitor_case(c, o)
         for sig, what in viol:
             if sig["class"] in reported:
